@@ -374,6 +374,12 @@ func c20R2(p *core.Program, r *core.Report) {
 		info := inflected.Info()
 		los := core.CallsTo(info, inflected.Body, true, "(*sync.Map).LoadOrStore")
 		once := core.CallsTo(info, inflected.Body, true, "sync.OnceValue")
+		// ... or in a one-line method of the same type that makes the thunk
+		for _, hc := range core.Calls(inflected.Body, true) {
+			if h := p.FuncOfObj(core.CalleeFunc(info, hc)); h != nil && h != inflected && h.Body != nil && len(h.Body.List) == 1 && h.Pkg == inflected.Pkg && h.Decl != nil && !h.Decl.Name.IsExported() {
+				once = append(once, core.CallsTo(h.Info(), h.Body.List[0], true, "sync.OnceValue")...)
+			}
+		}
 		plain := false
 		ast.Inspect(inflected.Body, func(n ast.Node) bool {
 			if ix, ok := n.(*ast.IndexExpr); ok {
@@ -734,6 +740,7 @@ func c20R5(p *core.Program, r *core.Report, infl *core.Func) {
 			continue
 		}
 		n++
+		w0 := w
 		for _, f := range w.AllFuncs() {
 			info := f.Info()
 			ast.Inspect(f.Body, func(nd ast.Node) bool {
@@ -747,22 +754,42 @@ func c20R5(p *core.Program, r *core.Report, infl *core.Func) {
 				if b, isB := info.TypeOf(ret.Results[0]).Underlying().(*types.Basic); !isB || b.Kind() != types.String {
 					return true
 				}
-				e, _ := core.Resolve(info, w.Body, ret.Results[0])
-				e = ast.Unparen(e)
-				good := false
-				how := ""
-				if v := core.VarOf(info, e); v != nil && isParamOf(w, v) {
-					good, how = true, "the input itself"
-				}
-				if c, isCall := e.(*ast.CallExpr); isCall {
-					if callee := p.FuncOfObj(core.CalleeFunc(info, c)); callee != nil && chain[callee] {
-						good, how = true, "result of "+callee.Name
-					} else if core.CalleeFunc(info, c) == nil && len(c.Args) == 0 {
-						if _, isConv := info.Types[c.Fun]; isConv && !info.Types[c.Fun].IsType() {
-							good, how = true, "call of the cached thunk"
+				var judge func(x ast.Expr, depth int) (bool, string)
+				judge = func(x ast.Expr, depth int) (bool, string) {
+					x, _ = core.Resolve(info, w.Body, x)
+					x = ast.Unparen(x)
+					if v := core.VarOf(info, x); v != nil && isParamOf(w0, v) {
+						return true, "the input itself"
+					}
+					if c, isCall := x.(*ast.CallExpr); isCall {
+						if callee := p.FuncOfObj(core.CalleeFunc(info, c)); callee != nil && chain[callee] {
+							return true, "result of " + callee.Name
+						} else if core.CalleeFunc(info, c) == nil && len(c.Args) == 0 {
+							if _, isConv := info.Types[c.Fun]; isConv && !info.Types[c.Fun].IsType() {
+								return true, "call of the cached thunk"
+							}
 						}
 					}
+					// a result variable assigned on several branches: every value it can have
+					if v := core.VarOf(info, x); v != nil && !v.IsField() && depth < 3 {
+						defs := core.DefsOf(info, w.Body, v)
+						if len(defs) >= 2 {
+							for _, d := range defs {
+								if d.Rhs == nil || d.Index >= 0 {
+									return false, ""
+								}
+								if ok, _ := judge(d.Rhs, depth+1); !ok {
+									return false, ""
+								}
+							}
+							return true, "a result variable that holds one of these on every branch"
+						}
+					}
+					return false, ""
 				}
+				e, _ := core.Resolve(info, w.Body, ret.Results[0])
+				e = ast.Unparen(e)
+				good, how := judge(ret.Results[0], 0)
 				r.Check(good, rule, w, "returns the rule's result unchanged: "+core.ExprStr(ret.Results[0]), ret.Pos(), how,
 					"this wrapper returns `"+core.ExprStr(e)+"`, which is neither its input, the next function's result nor the cached thunk: the inflected text is post-processed with knowledge of the whole input (e.g. re-cased when the input is upper case), so the last word is not inflected exactly as on its own")
 				return true
@@ -812,15 +839,30 @@ func c20R6(p *core.Program, r *core.Report) {
 			}
 			// (3) the value is (sync.OnceValue of) a function literal returning a call of a method of the receiver on the key
 			computed := false
-			if len(c.Args) >= 2 && key != nil {
-				val, _ := core.Resolve(info, root.Body, c.Args[1])
-				if oc := core.AsCall(info, val, "sync.OnceValue"); oc != nil && len(oc.Args) == 1 {
+			// thunkOf: val is (sync.OnceValue of) a function literal returning a call of a method of rcv on k
+			thunkOf := func(ti *types.Info, val ast.Expr, rcv, k *types.Var) bool {
+				if oc := core.AsCall(ti, val, "sync.OnceValue"); oc != nil && len(oc.Args) == 1 {
 					val = oc.Args[0]
 				}
 				if lit, isLit := ast.Unparen(val).(*ast.FuncLit); isLit && len(lit.Body.List) == 1 {
 					if ret, isRet := lit.Body.List[0].(*ast.ReturnStmt); isRet && len(ret.Results) == 1 {
-						if mc, isCall := ast.Unparen(ret.Results[0]).(*ast.CallExpr); isCall && len(mc.Args) == 1 && core.VarOf(info, mc.Args[0]) == key && core.VarOf(info, recvOf(mc)) == recv {
-							computed = true
+						if mc, isCall := ast.Unparen(ret.Results[0]).(*ast.CallExpr); isCall && len(mc.Args) == 1 && core.VarOf(ti, mc.Args[0]) == k && core.VarOf(ti, recvOf(mc)) == rcv && rcv != nil && k != nil {
+							return true
+						}
+					}
+				}
+				return false
+			}
+			if len(c.Args) >= 2 && key != nil {
+				val, _ := core.Resolve(info, root.Body, c.Args[1])
+				computed = thunkOf(info, val, recv, key)
+				// ... or the thunk is made by a one-line method of the same receiver from the same key:
+				// `r.cache.LoadOrStore(s, r.once(s))` with `func (r *Rule) once(s string) func() string { return sync.OnceValue(func() string { return r.inflected(s) }) }`
+				if hc, isCall := ast.Unparen(val).(*ast.CallExpr); !computed && isCall && len(hc.Args) == 1 && core.VarOf(info, hc.Args[0]) == key && core.VarOf(info, recvOf(hc)) == recv {
+					if h := p.FuncOfObj(core.CalleeFunc(info, hc)); h != nil && h.Body != nil && len(h.Body.List) == 1 && h.Decl != nil && h.Decl.Type.Params != nil && len(h.Decl.Type.Params.List) == 1 && len(h.Decl.Type.Params.List[0].Names) == 1 {
+						if ret, isRet := h.Body.List[0].(*ast.ReturnStmt); isRet && len(ret.Results) == 1 {
+							hk, _ := h.Info().ObjectOf(h.Decl.Type.Params.List[0].Names[0]).(*types.Var)
+							computed = thunkOf(h.Info(), ret.Results[0], recvVar(h), hk)
 						}
 					}
 				}
